@@ -269,6 +269,97 @@ fn rewrite(buf: &[u8], root: &Node, focus: raw::Span, style: Style, rng: &mut Rn
     (out, changed)
 }
 
+// ------------------------------------------------------------------ minimal artefacts
+/// datums whose whole encoding is one byte, two bytes, and non-canonical spellings of small values
+const DATUMS_1: &[&[u8]] = &[&[0x00], &[0x17], &[0x20], &[0x37], &[0x80], &[0xa0], &[0x40]];
+const DATUMS_2: &[&[u8]] = &[&[0x18, 0x18], &[0x38, 0x18], &[0x41, 0x00], &[0x81, 0x00], &[0x81, 0x80], &[0xa1, 0x00, 0x00], &[0xd8, 0x79, 0x80]];
+const DATUMS_NC: &[&[u8]] = &[&[0x18, 0x00], &[0x19, 0x00, 0x01], &[0x38, 0x00], &[0x9f, 0xff], &[0xbf, 0xff], &[0x5f, 0xff],
+    &[0x58, 0x00], &[0x98, 0x00], &[0xb8, 0x00], &[0xd8, 0x79, 0x9f, 0xff], &[0xd9, 0x00, 0x79, 0x80], &[0x1b, 0, 0, 0, 0, 0, 0, 0, 0]];
+/// smallest native scripts: all [] / any [] / at-least 0 of [] / invalid_before 0 / invalid_hereafter 0, and spellings
+const NATIVES: &[&[u8]] = &[&[0x82, 0x01, 0x80], &[0x82, 0x02, 0x80], &[0x83, 0x03, 0x00, 0x80], &[0x82, 0x04, 0x00], &[0x82, 0x05, 0x00]];
+const NATIVES_NC: &[&[u8]] = &[&[0x82, 0x01, 0x9f, 0xff], &[0x9f, 0x01, 0x80, 0xff], &[0x82, 0x18, 0x01, 0x80], &[0x82, 0x04, 0x18, 0x00], &[0x82, 0x01, 0x98, 0x00]];
+/// smallest plutus scripts (the content of the byte string is what is hashed)
+const PLUTUS: &[&[u8]] = &[&[0x40], &[0x41, 0x00], &[0x58, 0x01, 0x00]];
+
+fn bytes_item(content: &[u8]) -> Vec<u8> {
+    let mut e = pallas_codec::minicbor::Encoder::new(Vec::new());
+    e.bytes(content).unwrap();
+    e.into_writer()
+}
+
+/// A real block of an Alonzo+ era with minimal artefacts spliced into transaction `i`:
+/// datums and scripts into its witness set, and (Babbage+) outputs carrying the datums inline and the
+/// scripts as reference scripts.  Everything else is the block's own wire bytes.
+fn inject(buf: &[u8], tag: u64, i: usize, datums: &[&[u8]], natives: &[&[u8]], plutus: &[&[u8]]) -> Result<Vec<u8>, String> {
+    let mut root = cbor::parse(buf)?;
+    let blk = match &mut root.kind {
+        Kind::Array(top, _) => match &mut top[1].kind {
+            Kind::Array(b, _) => b,
+            _ => return Err("block".into()),
+        },
+        _ => return Err("wrapper".into()),
+    };
+    // witness set of tx i
+    {
+        let wits = match &mut blk[2].kind {
+            Kind::Array(w, _) => &mut w[i],
+            _ => return Err("witness sets".into()),
+        };
+        for (key, items) in [(4u8, datums), (1u8, natives)] {
+            if items.is_empty() {
+                continue;
+            }
+            let arr = wits.map_entry_array(key).ok_or("witness entry")?;
+            for d in items {
+                arr.push(Node::verbatim(d));
+            }
+        }
+        let keys: &[u8] = if tag >= 7 { &[3, 6, 7] } else if tag == 6 { &[3, 6] } else { &[3] };
+        for key in keys {
+            if plutus.is_empty() {
+                continue;
+            }
+            let arr = wits.map_entry_array(*key).ok_or("witness entry")?;
+            for p in plutus {
+                arr.push(Node::verbatim(p));
+            }
+        }
+    }
+    // outputs of tx i (post-Alonzo map form only exists from Babbage on)
+    if tag >= 6 {
+        let body = match &mut blk[1].kind {
+            Kind::Array(b, _) => &mut b[i],
+            _ => return Err("bodies".into()),
+        };
+        let outs = body.map_entry_array(1).ok_or("outputs")?;
+        let mut addr = vec![0x58, 0x1d, 0x61];
+        addr.extend_from_slice(&[0x5a; 28]);
+        let mut push_out = |extra_key: u8, extra: Vec<u8>| {
+            let mut o = vec![0xa3, 0x00];
+            o.extend_from_slice(&addr);
+            o.extend_from_slice(&[0x01, 0x1a, 0x00, 0x0f, 0x42, 0x40, extra_key]);
+            o.extend_from_slice(&extra);
+            outs.push(Node::verbatim(&o));
+        };
+        for d in datums {
+            let mut v = vec![0x82, 0x01, 0xd8, 0x18];
+            v.extend_from_slice(&bytes_item(d));
+            push_out(0x02, v);
+        }
+        for (t, list) in [(0u8, natives), (1u8, plutus), (2u8, plutus)] {
+            for sc in list {
+                let mut inner = vec![0x82, t];
+                inner.extend_from_slice(sc);
+                let mut v = vec![0xd8, 0x18];
+                v.extend_from_slice(&bytes_item(&inner));
+                push_out(0x03, v);
+            }
+        }
+    }
+    let mut rng = Rng::new(0);
+    Ok(cbor::reserialize(&root, Style::Same, &mut rng).0)
+}
+
 fn pick_style(rng: &mut Rng, p: u64) -> Style {
     match rng.below(6) {
         0 | 1 => Style::FlipDefinite(p),
@@ -359,6 +450,44 @@ pub fn trace(args: &Args) {
             }
         }
     }
+    // minimal artefacts (1-byte / 2-byte datums, empty containers, smallest scripts, canonical and not) spliced
+    // into real transactions of every Alonzo+ era
+    let inj_per_era = args.num("inject-blocks", 2) as usize;
+    let (mut inj_tried, mut inj_decoded) = (0u64, 0u64);
+    for tag in 5u64..=7 {
+        let mut cands: Vec<&(String, Vec<u8>)> = blocks
+            .iter()
+            .filter(|(_, b)| raw::parse_block(b).map(|r| r.tag == tag && !r.bodies.is_empty() && r.wits.len() == r.bodies.len()).unwrap_or(false))
+            .filter(|(_, b)| MultiEraBlock::decode(b).is_ok())
+            .collect();
+        cands.sort_by_key(|(_, b)| b.len());
+        for (name, buf) in cands.into_iter().take(inj_per_era) {
+            let n = raw::parse_block(buf).unwrap().bodies.len();
+            let i = rng.below(n as u64) as usize;
+            let mut groups: Vec<(String, Vec<&[u8]>, Vec<&[u8]>, Vec<&[u8]>)> = vec![
+                ("one-byte".into(), DATUMS_1.to_vec(), NATIVES.to_vec(), PLUTUS.to_vec()),
+                ("two-byte".into(), DATUMS_2.to_vec(), vec![], vec![]),
+            ];
+            for (k, d) in DATUMS_NC.iter().enumerate() {
+                groups.push((format!("nc-datum{k}"), vec![*d], vec![], vec![]));
+            }
+            for (k, sc) in NATIVES_NC.iter().enumerate() {
+                groups.push((format!("nc-native{k}"), vec![], vec![*sc], vec![]));
+            }
+            for (g, ds, ns, ps) in groups {
+                inj_tried += 1;
+                let src = format!("{name}+{g}@{i}");
+                match inject(buf, tag, i, &ds, &ns, &ps) {
+                    Ok(nb) => match block_artefacts(&mut run, &src, &nb) {
+                        Ok(true) => inj_decoded += 1,
+                        Ok(false) => info.ev(json!({"ev": "skip", "src": src, "why": "injected block not decoded by the library"})),
+                        Err(e) => info.ev(json!({"ev": "skip", "src": src, "why": e})),
+                    },
+                    Err(e) => info.ev(json!({"ev": "skip", "src": src, "why": format!("inject: {e}")})),
+                }
+            }
+        }
+    }
     // stand-alone transactions
     for (name, buf) in raw::corpus_files(".tx") {
         let root = match cbor::parse(&buf) {
@@ -406,7 +535,7 @@ pub fn trace(args: &Args) {
     }
     let by_focus: HashMap<String, Value> = by_focus.into_iter().map(|(k, v)| (k.to_string(), json!({"tried": v.0, "decoded": v.1}))).collect();
     info.ev(json!({"ev": "stats", "blocks": blocks.len(), "ids": run.ids, "events": run.seq, "by_kind": run.by_kind,
-                   "rewrites_tried": tried, "rewrites_unchanged": same, "rewrites_decoded": decoded, "by_focus": by_focus}));
+                   "injected_tried": inj_tried, "injected_decoded": inj_decoded, "rewrites_tried": tried, "rewrites_unchanged": same, "rewrites_decoded": decoded, "by_focus": by_focus}));
     info.finish();
     run.out.finish();
 }
